@@ -7,5 +7,6 @@ export CARGO_NET_OFFLINE=true CARGO_TARGET_DIR="$PWD/.cache/target"
 mkdir -p .cache/ml replays evidence
 [ -f harness/Cargo.lock ] || cp /repo/Cargo.lock harness/Cargo.lock
 (cd harness && timeout 3000 cargo build --offline --bins 2>&1 | tail -3)
+(cd /repo && CARGO_TARGET_DIR="$OLDPWD/.cache/target-lsp" timeout 3000 cargo build --offline -p trust-lsp --features verif_hooks 2>&1 | tail -2)
 (cd coq && coq_makefile -f _CoqProject -o Makefile $(find . -name '*.v' | sort) >/dev/null && find . -name '*.v' | sort | sed 's|^\./||' | tr '\n' '\n' > /dev/null; timeout 3000 make -j16 2>&1 | grep -v "Closed under" | tail -5)
 exit 0
